@@ -69,6 +69,10 @@ func (b *Bytes) View(start, end int64) (Blob, error) {
 	}
 	b.mu.Lock()
 	defer b.mu.Unlock()
+	if end > int64(len(b.bytes)) {
+		// truncated by another goroutine since the bounds were checked
+		return nil, fmt.Errorf("End index out of bounds: %d", end)
+	}
 	newB := NewBytes(b.bytes[start:end])
 	newB.mu = b.mu
 	return newB, nil
@@ -87,8 +91,12 @@ func (b *Bytes) Slice(start, end int64) (Blob, error) {
 	}
 	buf := make([]byte, end-start)
 	b.mu.Lock()
+	defer b.mu.Unlock()
+	if end > int64(len(b.bytes)) {
+		// truncated by another goroutine since the bounds were checked
+		return nil, fmt.Errorf("End index out of bounds: %d", end)
+	}
 	copy(buf, b.bytes[start:end])
-	b.mu.Unlock()
 	return NewBytes(buf), nil
 }
 
@@ -102,8 +110,12 @@ func (b *Bytes) Set(src Blob, destStart int64) (n int, err error) {
 	}
 	srcBytes := src.Bytes() // read the source first: it may be this blob or a view sharing this blob's mutex
 	b.mu.Lock()
+	defer b.mu.Unlock()
+	if destStart > int64(len(b.bytes)) {
+		// truncated by another goroutine since the bounds were checked
+		return 0, fmt.Errorf("Offset out of bounds: %d", destStart)
+	}
 	n = copy(b.bytes[destStart:], srcBytes)
-	b.mu.Unlock()
 	return n, nil
 }
 
